@@ -71,8 +71,20 @@ def err_must_exit(fn, call_block, sink_pred):
         sinks = [x for x in reach if fn.term(x)["k"] == "call" and sink_pred(fn.callee(x) or "")]
         if not (reach & rets) and exits and all(c not in (0, None) for c in codes) and not sinks:
             handlers.append((sb, ok_t, err_t))
+    # positively wrong: some Err edge can reach an output sink or exit(0)
+    for sb, ok_t, err_t in sws:
+        reach = fn.reachable(err_t)
+        if any(fn.term(x)["k"] == "call" and sink_pred(fn.callee(x) or "") for x in reach if x not in fn.reachable(ok_t) or True) and not any(x in fn.reachable(ok_t) for x in [err_t]):
+            sinks_ = [x for x in reach if fn.term(x)["k"] == "call" and sink_pred(fn.callee(x) or "")]
+            only_err = [x for x in sinks_ if x not in fn.reachable(ok_t)]
+            if only_err:
+                return False, "the Err edge at %s reaches an output sink (%s)" % (fn.loc(sb), [fn.loc(x) for x in only_err])
+        zero = [x for x in reach if fn.term(x)["k"] == "call" and fn.callee(x) == EXIT and exit_code(fn, x) == 0 and x not in fn.reachable(ok_t)]
+        if zero:
+            return False, "the Err edge at %s reaches exit(0) (%s)" % (fn.loc(sb), [fn.loc(x) for x in zero])
     if not handlers:
-        return False, "no switch on the result whose Err edge must reach exit(!=0) (switches: %d)" % len(sws)
+        # the error may be handed to the caller (a returned Err / exit code) or exit with a computed code: not the modelled form
+        return None, "no switch on the result whose Err edge must reach a constant exit(!=0) (switches: %d): the error is propagated or the code is computed - not decided" % len(sws)
     # remove the Err edges of handlers, and see whether a return is reachable from the call without crossing any handler
     cut = {sb for sb, _, _ in handlers}
     seen, st = {call_block}, [call_block]
@@ -87,7 +99,11 @@ def err_must_exit(fn, call_block, sink_pred):
     leak = seen & rets
     # exit(0)/sinks reachable without crossing a handler also count as leaks
     bad_exit = [x for x in seen if x not in cut and fn.term(x)["k"] == "call" and fn.callee(x) == EXIT and exit_code(fn, x) == 0]
-    return (not leak and not bad_exit), "handlers at %s; return reachable without passing a handler: %s; exit(0) reachable without a handler: %s" % (
+    # a normal return with the Err still unhandled: in a function that returns nothing the error is swallowed (definite); in a function
+    # that returns a Result / a code it may be on its way to the caller (not modelled)
+    ret_ty = (fn.f.get("locals") or [{}])[0].get("ty", "")
+    propagates = ("Result<" in ret_ty) or ("ExitCode" in ret_ty) or ret_ty in ("i32", "u8", "bool")
+    return (True if (not leak and not bad_exit) else (False if (bad_exit or not propagates) else None)), "handlers at %s; return reachable without passing a handler: %s; exit(0) reachable without a handler: %s" % (
         [fn.loc(h[0]) for h in handlers], bool(leak), bool(bad_exit))
 
 
@@ -127,7 +143,7 @@ def run(ctx):
         d = "parse result flows into `?`"
         tb = [x for x in es.call_blocks() if (es.callee_decl(x) or "").endswith("Try::branch")]
         if not tb:
-            ok, d = False, "no `?` on the parse result"
+            ok, d = None, "no `?` on the parse result (handled another way: not decided)"
         else:
             t = es.term(tb[0])
             nx = t["t"]
@@ -154,8 +170,9 @@ def run(ctx):
         for b in wfn.calls_to("blots::write_outputs"):
             reach = wfn.reachable(wfn.term(b)["t"]) if wfn.term(b)["t"] is not None else set()
             exits = [(x, exit_code(wfn, x)) for x in reach if wfn.term(x)["k"] == "call" and wfn.callee(x) == EXIT]
-            bad = [wfn.loc(x) for x, cde in exits if cde != 0]
-            ctx.inst("C19.R1", "%s#write_outputs[%d]->exit" % (wname.replace("blots::", ""), k), not bad,
+            bad = [wfn.loc(x) for x, cde in exits if cde not in (0, None)]
+            unknown_code = [x for x, cde in exits if cde is None]
+            ctx.inst("C19.R1", "%s#write_outputs[%d]->exit" % (wname.replace("blots::", ""), k), False if bad else (None if unknown_code else True),
                      "exits reachable after writing outputs: %s" % [(wfn.loc(x), cde) for x, cde in exits], wfn.loc(b))
             k += 1
     # println!("{}") shortcut: an outputs object on stdout bypassing write_outputs must be guarded by output_path.is_none()
